@@ -143,15 +143,15 @@ TEXT = {
   "level": "Theorem C03_every_valid_frame (Properties/C03.v): every byte string the independent strict decoder of the specification model accepts - any of the "
            "fifteen types, the properties table 2-4 allows in any order, once-only identifiers at most once, explicit zero values, empty strings, every "
            "legal short form, strings up to 65 535 bytes, no bound on the number of properties, filters or reason codes - is read by ReadPacket under any "
-           "delivery, without error, as a packet of the matching type whose accessors equal the specification's reading (frame_obs). The one excluded "
-           "case is DISCONNECT carrying a property other than user properties: known finding D13, for which C03_refuted (Findings/) proves the "
-           "unrestricted statement false of the model and the oracle reports KNOWN-FINDING. C03_spec_language: the strict decoder accepts exactly the "
+           "delivery, without error, as a packet of the matching type whose accessors equal the specification's reading (frame_obs). No case is excluded: "
+           "the former known finding D13 (DISCONNECT carrying Session Expiry Interval, Reason String or Server Reference rejected) was repaired in /repo "
+           "(fix: 3161d10) and its witness is now the theorem C03_disconnect_properties. C03_spec_language: the strict decoder accepts exactly the "
            "encodings of valid abstract frames (both directions), so the quantification over frames (C03_valid_frames) and over byte strings coincide. "
            "Tied to the source by the regenerated decoder IR and property maps (sync lemmas), fingerprints, correspondence, and the acceptance oracle "
            "driven by the extracted specification encoder.",
-  "note": NOTE + " Known finding D13 is listed in KNOWN_FINDINGS.txt and reported as KNOWN-FINDING. The specification model is my transcription of the OASIS "
+  "note": NOTE + " D13 is listed as fixed in KNOWN_FINDINGS.txt (a fixed entry suppresses nothing). The specification model is my transcription of the OASIS "
           "text and part of the trusted base.",
-  "technique": "Coq proof (acceptance of every byte string the specification decoder accepts, any property order, all 15 types; refutation witness for D13) + specification-encoder-driven acceptance oracle",
+  "technique": "Coq proof (acceptance of every byte string the specification decoder accepts, any property order, all 15 types, no exception) + specification-encoder-driven acceptance oracle",
  },
  "C09": {
   "level": "Whole-frame theorems for all four clauses, all 15 types (Proofs/CutP.v). C09a_whole_frames / C09a_read_packet: for every valid frame "
